@@ -57,7 +57,7 @@ var Check = &vrt.Check{
 // ---------------------------------------------------------------------------------------------
 // scenarios
 
-var opNames = []string{"ProcessInbound-new", "ProcessInbound-dup", "ProcessInbound-replace", "AddOut-new", "AddOut-replace", "SetSent", "SetUnread-true", "SetUnread-false", "ProcessInbound-longmid", "ProcessInbound-globmid"}
+var opNames = []string{"ProcessInbound-new", "ProcessInbound-dup", "ProcessInbound-replace", "AddOut-new", "AddOut-replace", "AddOut-resend", "SetSent", "SetUnread-true", "SetUnread-false", "ProcessInbound-longmid", "ProcessInbound-globmid"}
 
 var sizes = map[string][2]int{"small": {30, 0}, "medium": {900, 0}, "large": {3000, 1500}}
 var sizeNames = []string{"small", "medium", "large"}
@@ -209,6 +209,13 @@ func (sc scenario) buildPreRegular(dir string) error {
 		return h.ProcessInbound(sc.target("old").Build())
 	case "AddOut-replace":
 		return h.AddOut(sc.target("old").Build())
+	case "AddOut-resend":
+		// the message was posted and sent earlier; now a (corrected) copy with the same identifier is posted again
+		if err := h.AddOut(sc.target("old").Build()); err != nil {
+			return err
+		}
+		h.SetSent(sc.mid(), false)
+		return nil
 	case "SetSent":
 		return h.AddOut(sc.target("new").Build())
 	case "SetUnread-false", "SetUnread-true":
@@ -551,6 +558,14 @@ func (b *bench) recovery(point string) {
 			got, ok := post[rel]
 			o.Count("stored_messages_compared", 1)
 			switch {
+			case !ok && b.sc.Op == "AddOut-resend" && rel == "sent/"+b.sc.mid()+mailbox.Ext:
+				// the earlier, sent copy may be retired once the complete new copy is in the outbox (never before: the
+				// message must be in outbox or sent at every moment)
+				o.Count("resend_sent_copy_retired", 1)
+				out := "out/" + b.sc.mid() + mailbox.Ext
+				if r, stored := post[out]; !stored || !bytes.Equal(mboxkit.Canon(r), mboxkit.Canon(b.ref[out])) {
+					b.violate("outbound-lost", point, "%s (the copy sent earlier) is gone and %s does not hold the complete new copy: the message is in neither folder", rel, out)
+				}
 			case !ok && b.sc.Var == "upperext" && isTarget[lower] && rel != lower:
 				// the differently-cased file may be retired once the complete new version is stored under the usual name
 				if r, stored := post[lower]; !stored || !bytes.Equal(mboxkit.Canon(r), mboxkit.Canon(b.ref[lower])) {
